@@ -150,6 +150,19 @@ def split_responses(data):
         data = data[i + 4 + n:]
 
 
+def lazy_echo_app(environ, start_response):
+    """the same echo, produced the way Responder.start documents for asynchronous applications: the iterator first
+    yields empty bytes ("not ready yet") and calls start_response only on a later pass"""
+    body = environ["wsgi.input"].read()
+    out = b"M=" + environ["REQUEST_METHOD"].encode("iso-8859-1") + b" P=" + environ["PATH_INFO"].encode("iso-8859-1") + b" B=" + body
+
+    def gen():
+        yield b""
+        start_response("200 OK", [("Content-Type", "text/plain"), ("Content-Length", str(len(out))), ("Date", DATE)])
+        yield out
+    return gen()
+
+
 @contextlib.contextmanager
 def quiet():
     """the server reports parse errors on sys.stderr: keep them out of the check's output"""
@@ -164,7 +177,7 @@ def quiet():
 class ServerRun:
     """a real Valet with three connections"""
 
-    def __init__(self, table):
+    def __init__(self, table, lazy=False):
         env.use_repo()
         from ioflo.aid.consoling import getConsole
         from ioflo.aio.http import serving
@@ -175,7 +188,7 @@ class ServerRun:
         for i, r in enumerate(table["reqs"]):
             self.echo[b"M=" + to_bytes(r["start"][0]) + b" P=" + to_bytes(r["start"][1]) + b" B=" + to_bytes(r["body"])] = i + 1
         with D.patched(self.net):
-            self.valet = serving.Valet(port=8101, store=storing.Store(stamp=0.0), app=echo_app)
+            self.valet = serving.Valet(port=8101, store=storing.Store(stamp=0.0), app=lazy_echo_app if lazy else echo_app)
             if not self.valet.open():
                 raise RuntimeError("Valet did not open on the socket double")
             self.peers = [self.net.connect(("127.0.0.1", 8101)) for _ in range(3)]
@@ -266,10 +279,10 @@ class ClientRun:
         return b""
 
 
-def execute(b, table, skip=None):
+def execute(b, table, skip=None, lazy=False):
     """drive one behaviour's inputs into the real program; -> (events, exception or None, run)"""
     if b["kind"] == "server":
-        run = ServerRun(table)
+        run = ServerRun(table, lazy=lazy)
     else:
         run = ClientRun(table, len(b["script"][0]))
     evs = [{"ev": "Init", "kind": b["kind"], "script": b["script"], "wire": [list(to_syms(w)) for w in b["wire"]],
@@ -365,7 +378,8 @@ def run_c32(ctx):
         seen.add(key)
         by_kind[b["kind"]] += 1
         tampered += any(b["mutated"])
-        evs, ex, run = execute(b, table)
+        lazy = (by_kind["server"] % 2 == 0)      # every other server behaviour runs the asynchronous style application
+        evs, ex, run = execute(b, table, lazy=lazy)
         nexec += 1
         if ex == "nontermination":
             ctx.diverge(Divergence("C32", "nontermination", "Settle", b["kind"], "service passes keep changing the connections after 60 passes",
@@ -374,13 +388,13 @@ def run_c32(ctx):
         if ex is not None:
             ctx.diverge(Divergence("C32", "exception", evs[-1]["ev"], "%s:%s" % (b["kind"], replay.innermost_ioflo_frame(ex.__traceback__)),
                                    "%s: %s" % (type(ex).__name__, str(ex)[:160]), steps=_short(evs),
-                                   extra={"muts": b["muts"], "wire": [repr(w) for w in b["wire"]]}))
+                                   extra={"muts": b["muts"], "wire": [repr(w) for w in b["wire"]], "lazy_app": lazy}))
             continue
         trs.append((b, evs))
         # the same schedule without the tampered connection: the others must receive the same bytes
         if b["kind"] == "server" and any(b["mutated"]):
             bad = b["mutated"].index(True)
-            evs2, ex2, run2 = execute(b, table, skip=bad)
+            evs2, ex2, run2 = execute(b, table, skip=bad, lazy=lazy)
             nref += 1
             if ex2 is None:
                 closed = {e["c"] - 1 for e in evs if e["ev"] == "PeerClose"}
